@@ -642,3 +642,60 @@ Example c03_concurrent_writers_example :
   map fst (c_wire st) = [wire_image toy_seal exA mt_transport 5 [2]; wire_image toy_seal exA mt_transport 6 [1]] /\
   count (c_ss st) = 7 /\ c_wlock st = None.
 Proof. vm_compute. repeat split; reflexivity. Qed.
+
+(* ====================================================================================================== *)
+(* End-to-end completeness THROUGH the peer's receive loop (Proofs/RecvLoopFaithful.v): on a faithful network   *)
+(* every byte accepted by a write call of any size is delivered -- with the socket's truncation to the receive  *)
+(* buffer and readPacket's dispatch between the wire and the session — restated for MaxPlaintextSize, the bound *)
+(* the code uses (a full-size datagram is 64551 bytes and fits: c03_accepted_write_fits_every_receive_buffer).  *)
+(* ====================================================================================================== *)
+From Hop Require Import RecvLoopFaithful.
+
+Theorem c03_loop_write_delivered_on_faithful_network_under_open_seal :
+  forall seal open max H HS,
+    (forall k ad p, open k ad (seal k ad p) = Some p) ->
+    (forall k ad p, len (seal k ad p) = tag_len + len p) ->
+    open_len_ok open ->
+    forall st A B a b w,
+      l_crashed H st = false -> lookup (l_tab H st) (sid A) = Some B -> in_sync A B ->
+      count A + len b + 1 < lim -> qlen (queue B) + len b + 1 <= qcap B ->
+      write seal max_plaintext_size A b = Some w ->
+      let evs := map (fun d : dgram => LDgram a (fst d)) (w_out w) in
+      w_err w = false /\ w_panic w = false /\ w_n w = len b /\
+      l_crashed H (srv_run seal open max H HS st evs) = false /\
+      exists B', lookup (l_tab H (srv_run seal open max H HS st evs)) (sid A) = Some B' /\
+                 List.concat (queue B') = List.concat (queue B) ++ b /\ rbuf B' = rbuf B /\ remote B' = a.
+Proof. exact srv_loop_write_delivered. Qed.
+Print Assumptions c03_loop_write_delivered_on_faithful_network_under_open_seal.
+
+(* unconditional on Kravatte-SANSE *)
+Theorem c03_loop_write_delivered_on_faithful_network_sanse :
+  forall max H HS st A B a b w,
+    good_key (key_send A) ->
+    l_crashed H st = false -> lookup (l_tab H st) (sid A) = Some B -> in_sync A B ->
+    count A + len b + 1 < lim -> qlen (queue B) + len b + 1 <= qcap B ->
+    write sanse_seal max_plaintext_size A b = Some w ->
+    let evs := map (fun d : dgram => LDgram a (fst d)) (w_out w) in
+    w_err w = false /\ w_n w = len b /\
+    l_crashed H (srv_run sanse_seal sanse_open max H HS st evs) = false /\
+    exists B', lookup (l_tab H (srv_run sanse_seal sanse_open max H HS st evs)) (sid A) = Some B' /\
+               List.concat (queue B') = List.concat (queue B) ++ b /\ remote B' = a.
+Proof. exact srv_loop_write_delivered_sanse. Qed.
+Print Assumptions c03_loop_write_delivered_on_faithful_network_sanse.
+
+(* the hypotheses are satisfiable: the toy AEAD is correct, adds 32 bytes and is honest about lengths; exA / exB are
+   in sync; B sits in a table next to C *)
+Example c03_loop_write_delivered_nonvacuous :
+  (forall k ad p, toy_open k ad (toy_seal k ad p) = Some p) /\
+  (forall k ad p, len (toy_seal k ad p) = tag_len + len p) /\ open_len_ok toy_open /\
+  in_sync exA exB /\ lookup (l_tab unit ex_lst) (sid exA) = Some exB /\
+  match write toy_seal max_plaintext_size exA [10; 11; 12] with
+  | Some w =>
+    option_map queue (lookup (l_tab unit (srv_run toy_seal toy_open 100 unit ex_HS ex_lst
+                                            (map (fun d : dgram => LDgram 9 (fst d)) (w_out w)))) [1; 2; 3; 4]) = Some [[10; 11; 12]]
+  | None => False
+  end.
+Proof.
+  split; [exact toy_open_seal|]. split; [exact toy_seal_len|]. split; [exact toy_open_len_ok|].
+  split; [exact ex_in_sync|]. split; vm_compute; reflexivity.
+Qed.
